@@ -1,25 +1,30 @@
 //@ unit stream_scopes
 // The scope functions of the two stream tables (properties C10 "every stream ... is compactified before the data is produced",
 // C13 "no stream value is lost", C01 "no panic"):
-//   air/src/execution_step/execution_context/streams_variables.rs       Streams::{new, meet_scope_start, meet_scope_end, compactify}
-//   air/src/execution_step/execution_context/streams_variables/stream_descriptor.rs   StreamDescriptor::restricted
+//   air/src/execution_step/execution_context/streams_variables.rs       Streams::{meet_scope_start, meet_scope_end, compactify}
+//   air/src/execution_step/execution_context/streams_variables/stream_descriptor.rs   StreamDescriptor::restricted, find_closest
 //   air/src/execution_step/execution_context/stream_maps_variables.rs   StreamMaps::{meet_scope_start, meet_scope_end, compactify},
 //                                                                       StreamMapDescriptor::restricted
 //   air/src/execution_step/value_types/stream_map.rs                    StreamMap::{new, compactify}
+//   crates/air-lib/air-parser/src/parser/span.rs                        Span::contains_position
 // Abstract view (the one of unit appends, whose vocabulary is imported with `//@ import-spec`): `table: Map<name, Seq<descriptor>>`.
 //   meet_scope_start(name, span)  table' == table.insert(name, bound_to(table, name).push(restricted(fresh stream, span)))
 //   meet_scope_end(name, trace)   exactly the LAST descriptor of `name` leaves the table, the name leaves it iff nothing else is bound to
 //                                 it, the stream that left was handed to Stream::compactify (with all its appends) and the result
 //                                 returned is that call's result
-//   compactify(trace)             Ok: every stream of every descriptor of every name was handed to Stream::compactify exactly once;
-//                                 Err: the calls made stop at the first one that failed, whose error is returned; the table keeps its
-//                                 names, spans and appended values in both cases
+//   compactify(trace)             Ok: every stream of every descriptor of every name was handed to Stream::compactify exactly once and
+//                                 the table keeps its names, spans and appended values; Err: the calls made stop at the first one that
+//                                 failed, whose error is returned (the caller then produces no data: farewell_step/outcome.rs)
+//   find_closest(descriptors, p)  the stream of `closest(spans, p)` -- the LAST descriptor whose span contains p
+// This unit exists because a seeded change went through C10/C12/C13/C01: StreamMaps::meet_scope_start with
+// `self.stream_maps.insert(name, vec![new_descriptor])` instead of the Entry match drops every stream map already bound to the name
+// (global, or of an enclosing / recursive `new`) without compactify -- its `ap` states keep GenerationIdx::stub() in the produced data.
+//
 // The precondition of meet_scope_end ("the name is bound to at least one descriptor" -- the two `unwrap()`s) is a call-order fact:
 // unit control_exec proves at the only call site (obligations `epilog` and `New::execute`, from `balanced` of the body) that the scope
 // log of the owning object has depth > 0 for that name. The step from "depth > 0 in the ghost scope log of control_exec's shim" to
 // "a descriptor is bound in the real table" is NOT mechanical: it is the invariant depth(log, name) <= bound_to(table, name).len(),
-// which every contract here and in unit appends keeps (start: +1 on both sides; end: -1 on both sides; an append never shortens a
-// list -- `one_append`; compactify keeps every length), see lemma `scope_len_steps`.
+// whose steps are lemma `scope_len_steps` (the induction over the run is an argument on paper).
 //
 // Ghost logs: `Stream.calls` (as in unit appends) is the sequence of `add_value` calls made on that stream object; `Stream.compactions`
 // counts the `compactify` calls made on it; `TraceHandler.compacted` is the sequence of (stream as it was, result returned) of all
@@ -38,12 +43,20 @@
 //      `iter_mut()`     yields every bound name exactly once, in an unspecified order, with a mutable borrow of exactly its vector;
 //                         terminates. (The same three facts vstd states for `HashMap::iter`, plus distinctness of the keys.)
 //  * `impl Into<String>` (the name parameter of meet_scope_start; both callers pass `&str`): `into_text(name)` is the text of the
-//    String `name.into()` returns -- vstd's `IntoSpec::into_spec` when the conversion has a spec, an uninterpreted function of `name` otherwise.
-//  * `From<T> for T` is the identity (the `?` in compactify); `vec![x]` is vstd's.
-// Rewrites: the two loop heads of each `compactify` get a named ghost iterator (`for x in it: ..`), and
-//   `for descriptor in descriptors` (`&mut Vec<D>`: `IntoIterator for &mut Vec<T>` is `self.iter_mut()`, std) is spelled `descriptors.iter_mut()`.
-// NOT here: `Streams::{get, get_mut}` / `StreamMaps::{get, get_mut}` and `find_closest*` (`.rev()` on an `impl DoubleEndedIterator`,
-//   closures returning borrows: outside Verus; unit appends states their contract by hand).
+//    String `name.into()` returns, = the text of the argument for a `&str` (vstd has no spec for `<&str as Into<String>>::into`).
+//  * `Iterator::rev` on a slice iterator yields the remaining elements in reverse order (`verif_rev`, vstd has no model of `Rev`);
+//    AirPos: `struct AirPos(usize)` with the derived comparisons of a usize newtype (same text as unit validator).
+//  * `From<T> for T` is the identity (the `?` in compactify); `vec![x]`, `Vec::{push, pop, is_empty}`, `<[T]>::iter_mut`, `Option::unwrap` are vstd's.
+// Rewrites (9, all local): `name.into()` -> `name_into(name)` (2x, see above); the five loop heads of the two `compactify` and of find_closest
+//   get a named ghost iterator (`for x in it: ..`), of which `for descriptor in descriptors` (`&mut Vec<D>`: `IntoIterator for &mut Vec<T>` is
+//   `self.iter_mut()`, std) is also spelled `descriptors.iter_mut()` and find_closest's `.rev()` becomes `.verif_rev()`; the parameter type
+//   `impl DoubleEndedIterator<Item = &'d StreamDescriptor>` is instantiated at `core::slice::Iter<'d, StreamDescriptor>`, the type of the
+//   argument at its only call site (`descriptors.iter()` in Streams::get); the field of `GenerationIdx` is made pub (as in unit appends).
+// `#[verifier::loop_isolation(false)]` on the two compactify: the loop bodies must know what `iter_mut()` promised about the final value
+//   of the borrowed table, because the `?` inside the inner loop is an exit of the function.
+// NOT here: `Streams::{get, get_mut}` / `StreamMaps::{get, get_mut}`, `find_closest_mut`, and the find_closest* of stream maps:
+//   closures returning borrows handed to `Option::and_then`, `&mut` items returned out of an `iter_mut().rev()` loop, and
+//   `.rev().find(..).map(..)` chains are outside Verus; unit appends states the contract of the two `get_mut` by hand (`lookup`).
 use vstd::prelude::*;
 use vstd::std_specs::iter::IteratorSpec;
 verus! {
